@@ -191,17 +191,35 @@ func (t *Transport) encodeToWithContextTakeover(wr io.Writer, bs []byte) (int, e
 	t.writeWindowBufMu.Lock()
 	defer t.writeWindowBufMu.Unlock()
 
-	fwr, err := flate.NewWriterDict(buf, t.compressConfig.Level, t.writeWindowBuf.Bytes())
+	dict := t.writeWindowBuf.Bytes()
+	fwr, err := flate.NewWriterDict(buf, t.compressConfig.Level, dict)
 	if err != nil {
 		return 0, err
 	}
-	mwr := io.MultiWriter(fwr, t.writeWindowBuf)
-	if _, err := mwr.Write(bs); err != nil {
+	if _, err := fwr.Write(bs); err != nil {
 		return 0, err
 	}
 	if err := fwr.Close(); err != nil {
 		return 0, err
 	}
+	// compress/flate does not exclude the preset dictionary from a leading stored block: when the start of
+	// the message is incompressible the block carries the dictionary in front of the data and the peer reads
+	// a longer message. Such output starts with block type 00; encode those messages without the dictionary
+	// (a reader that holds a dictionary decodes that just as well).
+	if len(dict) > 0 && buf.Len() > 0 && buf.Bytes()[0]&0x06 == 0 {
+		buf.Reset()
+		fwr, err := flate.NewWriter(buf, t.compressConfig.Level)
+		if err != nil {
+			return 0, err
+		}
+		if _, err := fwr.Write(bs); err != nil {
+			return 0, err
+		}
+		if err := fwr.Close(); err != nil {
+			return 0, err
+		}
+	}
+	t.writeWindowBuf.Write(bs)
 	if t.compressConfig.WindowSize() < t.writeWindowBuf.Len() {
 		t.writeWindowBuf.Next(t.writeWindowBuf.Len() - t.compressConfig.WindowSize())
 	}
